@@ -24,7 +24,7 @@ def run(ctx, replay=None):
                 "Relations.tla, for the default Lebedev rule and for a symmetric full-sphere midpoint grid.")
     ctx.assumptions = ["tensors enter the specification as identifiers; the harness recognises the derived tensors by comparison with all candidates (rtol 1e-9)",
                        "identities are real-analytic facts judged as lt/eq/gt under fixed tolerances (observation level): rtol 1e-9 .. 1e-6, 2e-3 on the midpoint grid",
-                       "cubic stiffness tensors (mechanically stable), diagonal eigenstrains"]
+                       "cubic stiffness tensors (mechanically stable); diagonal eigenstrains in the histories, diagonal and shear eigenstrains and general rotations in the identities"]
     n = 5 if ctx.tier == "quick" else 6
     base = ["SPECIFICATION Spec", "CONSTANTS", '  Stiff = {"C1", "C2"}', '  Rots = {"I", "R1"}', '  Eigs = {"e1"}', '  Stresses = {"s1"}',
             '  Shapes = {"ellipsoid", "sphere"}', "  MaxOps = %d" % n]
